@@ -1,13 +1,248 @@
-//! c08: bounded stand-in (E3) -- see DESIGN.md section 5
-#![allow(dead_code, unused_imports)]
+//! C08: loading is deterministic under every thread schedule (bounded stand-in; the schedules are the quantifier).
+//!
+//! Three families, all on hand-assembled PDF 1.5 files with a cross-reference stream and object streams:
+//!  * orders : through hook H1 (`lopdf::verif_hooks::MERGE_ORDER`) every order in which the per-container blocks of
+//!             compressed objects can reach the merge is enumerated (k! orders for k object streams);
+//!  * pools  : repeated loads inside rayon pools of 1,2,3,4,8,16 threads (sampling of real schedules and of rayon's
+//!             adaptive splitting inside one object stream);
+//!  * seq    : the digest of each file as loaded by the `--no-default-features` (sequential) build of the same harness,
+//!             obtained from the binary named by LOPDF_VERIF_SEQ_BIN; every other load must equal it.
+#![allow(dead_code)]
 use crate::common::*;
-use crate::gen::*;
+use lopdf::{Document, Object};
 use serde_json::{json, Value};
+use std::collections::BTreeMap;
+use std::sync::atomic::Ordering;
 
-pub fn run(_thorough: bool) -> Report {
-    Report::new("not built yet", false)
+#[derive(Clone, Copy, Debug, PartialEq)]
+pub enum Mode {
+    /// the cross-reference stream designates container `d` for the shared object
+    Designated(usize),
+    /// the shared object's entry is free
+    Free,
+    /// the cross-reference stream has no entry for the shared object (two /Index subsections)
+    Absent,
+    /// the shared object is also an ordinary object at an offset; the entry is of type 1
+    Normal,
+    /// the entry designates an object stream that does not list the object
+    Elsewhere,
 }
 
-pub fn replay(_v: &Value) -> Result<(), String> {
-    Err("no replay".into())
+#[derive(Clone, Debug)]
+pub struct Spec { pub k: usize, pub mode: Mode, pub wide: usize }
+
+fn mode_json(m: Mode) -> Value { match m { Mode::Designated(d) => json!({"designated": d}), Mode::Free => json!("free"), Mode::Absent => json!("absent"), Mode::Normal => json!("normal"), Mode::Elsewhere => json!("elsewhere") } }
+fn mode_from(v: &Value) -> Mode {
+    if let Some(d) = v.get("designated").and_then(|x| x.as_u64()) { return Mode::Designated(d as usize); }
+    match v.as_str() { Some("free") => Mode::Free, Some("absent") => Mode::Absent, Some("normal") => Mode::Normal, _ => Mode::Elsewhere }
+}
+fn spec_json(s: &Spec) -> Value { json!({"k": s.k, "mode": mode_json(s.mode), "wide": s.wide}) }
+fn spec_from(v: &Value) -> Spec { Spec { k: v["k"].as_u64().unwrap_or(1) as usize, mode: mode_from(&v["mode"]), wide: v["wide"].as_u64().unwrap_or(0) as usize } }
+pub fn spec_name(s: &Spec) -> String { format!("k{}-{:?}-w{}", s.k, s.mode, s.wide) }
+
+const SHARED: u32 = 20;
+const TWICE: u32 = 21;
+const XREF_ID: u32 = 60;
+const DATA: &[u8] = b"0123456789abcdefghijklmnopqrstuvwxyz";
+
+enum Ent { Free, Normal(usize), Compressed(u32, u32) }
+
+/// Assemble the file. Objects: 1 catalog, 2 pages, 3 page, 4 stream with /Length 20 0 R (the shared compressed
+/// object: container i says i+1), 5 stream with /Length 0, 6 stream with /Length 7 0 R, 7 integer, 10.. object streams,
+/// 30+2i / 31+2i unique to container i, 21 listed twice in container 0, 60 the cross-reference stream.
+/// `wide` > 0 additionally gives every container an index of `wide` entries over a pool of few numbers (1000+), so that
+/// one object number is listed many times in one index block and in several containers.
+pub fn build_file(s: &Spec) -> Vec<u8> {
+    let mut f: Vec<u8> = b"%PDF-1.5\n%\xE2\xE3\xCF\xD3\n".to_vec();
+    let mut ent: BTreeMap<u32, Ent> = BTreeMap::new();
+    ent.insert(0, Ent::Free);
+    let mut put = |f: &mut Vec<u8>, ent: &mut BTreeMap<u32, Ent>, id: u32, body: &[u8]| {
+        ent.insert(id, Ent::Normal(f.len()));
+        f.extend_from_slice(format!("{} 0 obj\n", id).as_bytes()); f.extend_from_slice(body); f.extend_from_slice(b"\nendobj\n");
+    };
+    put(&mut f, &mut ent, 1, b"<< /Type /Catalog /Pages 2 0 R >>");
+    put(&mut f, &mut ent, 2, b"<< /Type /Pages /Kids [3 0 R] /Count 1 >>");
+    put(&mut f, &mut ent, 3, b"<< /Type /Page /Parent 2 0 R /MediaBox [0 0 10 10] /Contents 4 0 R >>");
+    let mut b4 = b"<< /Length 20 0 R >>\nstream\n".to_vec(); b4.extend_from_slice(DATA); b4.extend_from_slice(b"\nendstream");
+    put(&mut f, &mut ent, 4, &b4);
+    put(&mut f, &mut ent, 5, b"<< /Length 0 >>\nstream\n\nendstream");
+    let mut b6 = b"<< /Length 7 0 R >>\nstream\n".to_vec(); b6.extend_from_slice(&DATA[..9]); b6.extend_from_slice(b"\nendstream");
+    put(&mut f, &mut ent, 6, &b6);
+    put(&mut f, &mut ent, 7, b"9");
+    if s.mode == Mode::Normal { put(&mut f, &mut ent, SHARED, b"33"); }
+    let mut wide_owner: BTreeMap<u32, u32> = BTreeMap::new();
+    for i in 0..s.k {
+        let cid = 10 + i as u32;
+        // (object number, text)
+        let mut items: Vec<(u32, String)> = vec![];
+        items.push((30 + 2 * i as u32, format!("<< /U {} /C {} >>", 30 + 2 * i, i)));
+        items.push((SHARED, format!("{}", i + 1)));
+        if i == 0 { items.push((TWICE, "100".into())); }
+        items.push((31 + 2 * i as u32, format!("[{} /c{} (s{})]", i, i, i)));
+        if i == 0 { items.push((TWICE, "200".into())); }
+        let mut x: u32 = 12345 + 77 * i as u32;
+        for j in 0..s.wide {
+            x = x.wrapping_mul(1103515245).wrapping_add(12345);
+            // few numbers early in the index, many late (and the other way round in odd containers): halves of different sizes
+            let early = (j < s.wide / 2) == (i % 2 == 0);
+            let n = 1000 + if early { (x >> 16) % 5 } else { (x >> 16) % 40 };
+            items.push((n, format!("<< /W {} /At {} /In {} >>", n, j, i)));
+            wide_owner.entry(n).or_insert(cid);
+        }
+        let mut index = String::new(); let mut body = String::new();
+        for (n, text) in &items { index.push_str(&format!("{} {} ", n, body.len())); body.push_str(text); body.push(' '); }
+        let content = format!("{}{}", index, body);
+        let mut o = format!("<< /Type /ObjStm /N {} /First {} /Length {} >>\nstream\n", items.len(), index.len(), content.len()).into_bytes();
+        o.extend_from_slice(content.as_bytes()); o.extend_from_slice(b"\nendstream");
+        put(&mut f, &mut ent, cid, &o);
+        ent.insert(30 + 2 * i as u32, Ent::Compressed(cid, 0));
+        ent.insert(31 + 2 * i as u32, Ent::Compressed(cid, 3));
+    }
+    ent.insert(TWICE, Ent::Compressed(10, 2));
+    for (n, c) in &wide_owner { let c = if n % 3 == 0 { 10 + (s.k as u32 - 1) } else { *c }; ent.insert(*n, Ent::Compressed(c, 0)); }   // a third designated to the last container
+    match s.mode {
+        Mode::Designated(d) => { ent.insert(SHARED, Ent::Compressed(10 + d as u32, 1)); }
+        Mode::Free => { ent.insert(SHARED, Ent::Free); }
+        Mode::Absent | Mode::Normal => {}
+        Mode::Elsewhere => { ent.insert(SHARED, Ent::Compressed(2, 0)); }
+    }
+    // cross-reference stream, W [1 4 2], subsections for the runs of present entries
+    let xpos = f.len();
+    ent.insert(XREF_ID, Ent::Normal(xpos));
+    let size = ent.keys().max().unwrap() + 1;
+    let mut rows: Vec<u8> = vec![]; let mut index: Vec<(u32, u32)> = vec![];
+    for n in 0..size {
+        let Some(e) = ent.get(&n) else { continue };
+        match index.last_mut() { Some((st, c)) if *st + *c == n => *c += 1, _ => index.push((n, 1)) }
+        let (t, a, b) = match e { Ent::Free => (0u8, 0u32, 65535u16), Ent::Normal(o) => (1, *o as u32, 0), Ent::Compressed(c, i) => (2, *c, *i as u16) };
+        rows.push(t); rows.extend_from_slice(&a.to_be_bytes()); rows.extend_from_slice(&b.to_be_bytes());
+    }
+    let idx: String = index.iter().map(|(a, b)| format!("{} {} ", a, b)).collect();
+    f.extend_from_slice(format!("{} 0 obj\n<< /Type /XRef /Size {} /W [1 4 2] /Index [{}] /Root 1 0 R /Length {} >>\nstream\n", XREF_ID, size, idx.trim_end(), rows.len()).as_bytes());
+    f.extend_from_slice(&rows); f.extend_from_slice(b"\nendstream\nendobj\n");
+    f.extend_from_slice(format!("startxref\n{}\n%%EOF\n", xpos).as_bytes());
+    f
+}
+
+fn canon(o: &Object, out: &mut String) {
+    match o {
+        Object::Stream(s) => { out.push_str(&format!("stream{{{:?}|{}|{:?}}}", s.dict, hex(&s.content), s.allows_compression)); }
+        other => out.push_str(&format!("{:?}", other)),
+    }
+}
+
+/// canonical rendering of everything the statement lists: objects with contents, trailer, maximum id, version
+pub fn digest(d: &Document) -> String {
+    let mut s = format!("version={} max_id={} trailer={:?}\n", d.version, d.max_id, d.trailer);
+    for (id, o) in &d.objects { s.push_str(&format!("{} {}: ", id.0, id.1)); canon(o, &mut s); s.push('\n'); }
+    s
+}
+
+fn set_order(k: usize) { lopdf::verif_hooks::MERGE_ORDER.store(k, Ordering::SeqCst); }
+fn blocks() -> usize { lopdf::verif_hooks::LAST_BLOCKS.load(Ordering::SeqCst) }
+
+fn load(bytes: &[u8]) -> Result<String, String> {
+    match guarded(std::panic::AssertUnwindSafe(|| Document::load_mem(bytes))) {
+        Err(p) => Err(format!("panic: {}", p)),
+        Ok(Err(e)) => Ok(format!("load error: {}", e)),
+        Ok(Ok(d)) => Ok(digest(&d)),
+    }
+}
+
+pub fn specs(thorough: bool) -> Vec<Spec> {
+    let mut v = vec![];
+    let kmax = if thorough { 6 } else { 4 };
+    for k in 1..=kmax {
+        for d in 0..k { v.push(Spec { k, mode: Mode::Designated(d), wide: 0 }); }
+        for m in [Mode::Free, Mode::Absent, Mode::Normal, Mode::Elsewhere] { v.push(Spec { k, mode: m, wide: 0 }); }
+    }
+    let mut wides = vec![(1usize, 64usize), (2, 64), (3, 37), (3, 200), (8, 300)];
+    if thorough { wides.push((16, 300)); }
+    for (k, wide) in wides { v.push(Spec { k, mode: Mode::Designated(k - 1), wide }); v.push(Spec { k, mode: Mode::Free, wide }); }
+    v
+}
+
+fn factorial(n: usize) -> usize { (1..=n).product::<usize>().max(1) }
+
+fn first_diff(a: &str, b: &str) -> String {
+    for (x, y) in a.lines().zip(b.lines()) { if x != y { return format!("{:?} vs {:?}", x.chars().take(160).collect::<String>(), y.chars().take(160).collect::<String>()); } }
+    format!("{} lines vs {} lines", a.lines().count(), b.lines().count())
+}
+
+/// digests computed by this very binary with the hook left alone; `c08-digests` prints them (used with the sequential build)
+pub fn digests(thorough: bool) -> Value {
+    set_order(usize::MAX);
+    let mut m = serde_json::Map::new();
+    for s in specs(thorough) { m.insert(spec_name(&s), json!(load(&build_file(&s)).unwrap_or_else(|e| e))); }
+    Value::Object(m)
+}
+
+fn seq_digests(thorough: bool) -> Result<Value, String> {
+    let bin = std::env::var("LOPDF_VERIF_SEQ_BIN").map_err(|_| "LOPDF_VERIF_SEQ_BIN is not set".to_string())?;
+    let mut c = std::process::Command::new(bin);
+    c.arg("c08-digests").arg("--tier").arg(if thorough { "thorough" } else { "quick" });
+    let out = c.output().map_err(|e| format!("sequential build did not start: {}", e))?;
+    let text = String::from_utf8_lossy(&out.stdout).to_string();
+    let line = text.lines().find(|l| l.starts_with('{')).ok_or_else(|| format!("sequential build printed no digests: {}", String::from_utf8_lossy(&out.stderr)))?;
+    serde_json::from_str(line).map_err(|e| e.to_string())
+}
+
+fn check_spec(s: &Spec, seq: &str, max_orders: usize, repeats: usize, rep: &mut Report) {
+    let bytes = build_file(s);
+    let input = |extra: Value| json!({"spec": spec_json(s), "at": extra});
+    // the unhooked load in the calling thread's pool
+    set_order(usize::MAX);
+    let base = match load(&bytes) { Ok(d) => d, Err(p) => { rep.fail("no-panic", format!("{}: {}", spec_name(s), p), input(json!("plain")), p.clone()); return; } };
+    rep.case(true);
+    if base != seq { rep.fail("equals-sequential-build", format!("{}: parallel load differs from the sequential build: {}", spec_name(s), first_diff(&base, seq)), input(json!("plain")), first_diff(&base, seq)); }
+    let b = blocks();
+    if b != s.k { rep.fail("hook-sees-every-container", format!("{}: {} object streams in the file, hook H1 recorded {} blocks", spec_name(s), s.k, b), input(json!("plain")), format!("{}", b)); }
+    // every merge order
+    let n = factorial(b).min(max_orders);
+    for k in 0..n {
+        set_order(k);
+        let r = load(&bytes);
+        rep.case(true);
+        match r {
+            Err(p) => { rep.fail("no-panic", format!("{} order {}: {}", spec_name(s), k, p), input(json!({"order": k})), p.clone()); }
+            Ok(d) => if d != seq { rep.fail("every-merge-order-gives-the-same-document", format!("{}: merge order {} of {} gives a different document: {}", spec_name(s), k, factorial(b), first_diff(&d, seq)), input(json!({"order": k})), first_diff(&d, seq)); break; }
+        }
+    }
+    set_order(usize::MAX);
+    // real schedules
+    for threads in [1usize, 2, 3, 4, 8, 16] {
+        let pool = rayon::ThreadPoolBuilder::new().num_threads(threads).build().expect("pool");
+        for r in 0..repeats {
+            let d = pool.install(|| load(&bytes));
+            rep.case(true);
+            match d {
+                Err(p) => { rep.fail("no-panic", format!("{} pool {}: {}", spec_name(s), threads, p), input(json!({"threads": threads})), p.clone()); }
+                Ok(d) => if d != seq { rep.fail("every-pool-size-gives-the-same-document", format!("{}: load number {} on a pool of {} threads differs from the sequential build: {}", spec_name(s), r, threads, first_diff(&d, seq)), input(json!({"threads": threads, "repeats": repeats})), first_diff(&d, seq)); break; }
+            }
+        }
+    }
+}
+
+pub fn run(thorough: bool) -> Report {
+    let mut rep = Report::new("files with k = 1..4 (thorough 6) object streams; one object number present in every stream with a different value and used as the /Length of a stream, its cross-reference entry designating each container in turn / free / absent / an ordinary object / a container that does not list it; an object listed twice in one index; zero-length and indirect-length streams; wide files (up to 8, thorough 16, containers x 300 index entries over a pool of few numbers). Per file: all k! merge orders through hook H1 (capped at 720), 6 pool sizes {1,2,3,4,8,16} x 3 (thorough 25) repeated loads, all compared with the --no-default-features build of the same harness", false);
+    let seq = match seq_digests(thorough) { Ok(v) => v, Err(e) => { eprintln!("c08: {}", e); std::process::exit(3); } };
+    for s in specs(thorough) {
+        let Some(sd) = seq.get(spec_name(&s)).and_then(|x| x.as_str()) else { eprintln!("c08: no sequential digest for {}", spec_name(&s)); std::process::exit(3); };
+        if sd.starts_with("load error") || sd.starts_with("panic") { rep.fail("generated-file-loads", format!("{}: sequential build: {}", spec_name(&s), sd), json!({"spec": spec_json(&s)}), sd.to_string()); continue; }
+        check_spec(&s, sd, 720, if thorough { 25 } else { 3 }, &mut rep);
+    }
+    set_order(usize::MAX);
+    let s0 = Spec { k: 3, mode: Mode::Free, wide: 0 };
+    rep.sample(format!("{}: {}", spec_name(&s0), String::from_utf8_lossy(&build_file(&s0)).chars().filter(|c| c.is_ascii() && !c.is_control() || *c == '\n').skip(520).take(300).collect::<String>()));
+    rep
+}
+
+pub fn replay(v: &Value) -> Result<(), String> {
+    let s = spec_from(&v["spec"]);
+    let seq = seq_digests(true).or_else(|_| seq_digests(false))?;
+    let sd = seq.get(spec_name(&s)).and_then(|x| x.as_str()).ok_or("no sequential digest for this file")?.to_string();
+    let mut rep = Report::new("replay", false);
+    check_spec(&s, &sd, 720, 10, &mut rep);
+    set_order(usize::MAX);
+    match rep.failures.first() { None => Ok(()), Some(f) => Err(format!("{}: {}", f.obligation, f.detail)) }
 }
